@@ -105,6 +105,24 @@ func StrSz(lo, hi int64) Ty {
 }
 func StrVal(s string) Ty            { return Ty{K: "strval", S: []string{s}} }
 func Enum(ci bool, vs ...string) Ty { return Ty{K: "enum", CI: ci, S: vs} }
+
+// EnumRaw is the call NewEnumType(vs, ci) with the values AS GIVEN (any spelling): what the constructor stores is its business.  The term
+// of the type it denotes is CanonEnum (values lower-cased when case-insensitive, no values = the default Enum).
+func EnumRaw(ci bool, vs ...string) Ty { return Ty{K: "enumraw", CI: ci, S: vs} }
+
+// CanonEnum: the constructor-normal Enum term an (enumraw ..) term denotes.
+func CanonEnum(t Ty) Ty {
+	if len(t.S) == 0 {
+		return Enum(false)
+	}
+	vs := append([]string{}, t.S...)
+	if t.CI {
+		for i, v := range vs {
+			vs[i] = asciiLower(v)
+		}
+	}
+	return Enum(t.CI, vs...)
+}
 func Pat(srcs ...string) Ty         { return Ty{K: "pat", S: srcs} }
 func Rx(src string) Ty              { return Ty{K: "rx", S: []string{src}} }
 
@@ -270,8 +288,8 @@ func (t Ty) Sexp() sx.Sexp {
 			pat = sx.L(sx.Str(t.S[2]))
 		}
 		return sx.T("rt", sx.Str(t.S[0]), sx.Str(t.S[1]), pat)
-	case "enum":
-		return sx.T("enum", append([]sx.Sexp{sx.Bool(t.CI)}, strsSexp(t.S)...)...)
+	case "enum", "enumraw":
+		return sx.T(t.K, append([]sx.Sexp{sx.Bool(t.CI)}, strsSexp(t.S)...)...)
 	case "pat":
 		return sx.T("pat", strsSexp(t.S)...)
 	case "arr":
@@ -540,7 +558,7 @@ func ParseTy(e sx.Sexp) (Ty, error) {
 		}
 		ss, err := parseStrs(a)
 		return Ty{K: tag, S: ss}, err
-	case "enum":
+	case "enum", "enumraw":
 		if len(a) < 1 {
 			return Ty{}, fmt.Errorf("bad enum %s", e)
 		}
@@ -750,6 +768,9 @@ func (t Ty) Kids() []Ty {
 func StripAlias(t Ty) Ty {
 	if t.K == "alias" {
 		return StripAlias(t.Ts[0])
+	}
+	if t.K == "enumraw" {
+		return CanonEnum(t)
 	}
 	r := t
 	if len(t.Ts) > 0 {
